@@ -408,7 +408,7 @@ def drive(ctx, binpath, scripts, chunk=64, timeout=300, args=None, env=None, par
     return results
 
 
-def validate(ctx, module, cfg, hists, chunks=None, timeout=900, max_reject=10, files=None):
+def validate(ctx, module, cfg, hists, chunks=None, timeout=900, max_reject=40, files=None):
     """Validate recorded histories with TLC against spec/<module>.tla (trace spec convention:
     reads trace.ndjson, one state per consumed line, POSTCONDITION Accepted on the diameter).
 
@@ -433,25 +433,28 @@ def validate(ctx, module, cfg, hists, chunks=None, timeout=900, max_reject=10, f
         while idx:
             lines = []
             owner = []
-            for i in idx:
+            for k, i in enumerate(idx):
                 for j, e in enumerate(hists[i]):
                     lines.append(json.dumps(e))
-                    owner.append((i, j))
+                    owner.append((k, j))
             fs = {"trace.ndjson": "\n".join(lines) + "\n"}
             fs.update(files or {})
             r = ctx.tlc(module, cfg=cfg, workers=1, timeout=timeout, files=fs, want_ok=False, count=False)
             if r.ok:
                 accepted[0] += len(idx)
                 return
-            if "Accepted" not in r.out or "is violated" not in r.out and "postcondition" not in r.out.lower():
+            if "Accepted" not in r.out or "is false" not in r.out:
                 tail = "\n".join(r.out.splitlines()[-30:])
                 raise Inconclusive("trace validation with %s failed to run:\n%s" % (module, tail))
             pos = r.depth   # states = consumed events + 1  => failing event index (1-based) = depth
             if pos < 1 or pos > len(owner):
                 raise Inconclusive("cannot locate the rejected event (depth %d of %d)" % (pos, len(owner)))
-            hi, ej = owner[pos - 1]
+            k, ej = owner[pos - 1]
+            hi = idx[k]
             rej_all.append((hi, ej, hists[hi][ej]))
-            idx.remove(hi)
+            # everything before the rejected history was accepted; continue behind it
+            accepted[0] += k
+            idx = idx[k + 1:]
             rejected += 1
             if rejected >= max_reject:
                 unexamined[0] += len(idx)
@@ -459,3 +462,31 @@ def validate(ctx, module, cfg, hists, chunks=None, timeout=900, max_reject=10, f
 
     ctx.pmap(job, parts)
     return accepted[0], sorted(rej_all, key=lambda x: x[0]), unexamined[0]
+
+
+def validate_stateless(ctx, module, cfg, events, chunks=None, timeout=1200):
+    """Stateless trace validation: the trace spec evaluates `Good` on every event and prints
+    <<"@@", ToJson([bad |-> set of rejected indices, n |-> Len(Trace)])>>.  Returns the rejected events."""
+    n = len(events)
+    if n == 0:
+        return []
+    k = chunks or max(1, min(NCPU, (n + 3999) // 4000))
+    parts = [list(range(i, n, k)) for i in range(k)]
+    parts = [p for p in parts if p]
+    bad = []
+
+    def job(idx):
+        fs = {"trace.ndjson": "\n".join(json.dumps(events[i]) for i in idx) + "\n"}
+        r = ctx.tlc(module, cfg=cfg, workers=1, timeout=timeout, files=fs, want_ok=False, count=False)
+        em = r.emitted()
+        if not em or em[0].get("n") != len(idx):
+            tail = "\n".join(r.out.splitlines()[-30:])
+            raise Inconclusive("stateless validation with %s failed to run:\n%s" % (module, tail))
+        b = em[0]["bad"]
+        if bool(b) == r.ok:
+            raise Inconclusive("inconsistent TLC verdict in %s" % module)
+        for j in b:
+            bad.append(idx[j - 1])
+
+    ctx.pmap(job, parts)
+    return [events[i] for i in sorted(bad)]
